@@ -27,7 +27,7 @@ static int g_watchdog_s = 20;
 
 static std::string case_str (const Case &c) {
 	char b[200];
-	snprintf (b, sizeof b, "lib=%s entry=%s mode=%d deadline={%lld,%ld} class=%s event_after_ms=%d", c.lib ? "libnsync_cpp.a" : "libnsync.a", entry_name[c.entry], c.mode, c.sec, c.nsec,
+	snprintf (b, sizeof b, "lib=%s entry=%s mode=%d%s deadline={%lld,%ld} class=%s event_after_ms=%d", c.lib ? "libnsync_cpp.a" : "libnsync.a", entry_name[c.entry], c.mode, c.mode >= 4 ? "(time_point overload)" : "", c.sec, c.nsec,
 		  c.cls == EXPIRED ? "expired" : c.cls == NEAR ? "near-future" : "far/none", c.event_ms);
 	return b;
 }
@@ -123,16 +123,27 @@ int main (int argc, char **argv) {
 		{ 2, 0, 40000000, NEAR, "now+40ms" }, { 2, 0, 20000000, NEAR, "now+20ms" },
 		{ 0, LLONG_MAX, 999999998, FAR, "max-1ns" }, { 0, LLONG_MAX - 1, 999999999, FAR, "max-1s" }, { 1, 0, 0, FAR, "no_deadline" }, { 2, 1000, 0, FAR, "now+1000s" },
 	};
+	// the same instants handed over as std::chrono::system_clock::time_point (C++ build only; modes 4,5,6 = 0,2,3 through
+	// the C++ overloads).  A time_point is a count of ns in int64, so the range is +/-292 years around the epoch.
+	static const Spec tpgrid[] = {
+		{ 4, 0, 0, EXPIRED, "tp epoch" }, { 4, 0, 1, EXPIRED, "tp +1ns" }, { 4, -1, 999999999, EXPIRED, "tp -1ns" }, { 4, 1, 0, EXPIRED, "tp +1s" }, { 4, -1, 0, EXPIRED, "tp -1s" },
+		{ 4, -1, 500000000, EXPIRED, "tp -0.5s" }, { 4, -2, 500000000, EXPIRED, "tp -1.5s" }, { 4, -(1LL << 31), 0, EXPIRED, "tp -2^31 s" }, { 4, -9223372037LL, 145224192, EXPIRED, "tp min" },
+		{ 6, 0, 30000000, EXPIRED, "tp now-30ms" }, { 6, 2, 0, EXPIRED, "tp now-2s" },
+		{ 5, 0, 40000000, NEAR, "tp now+40ms" }, { 5, 0, 20000000, NEAR, "tp now+20ms" },
+		{ 4, 9223372036LL, 854775807, FAR, "tp max" }, { 4, 9223372035LL, 0, FAR, "tp max-1.85s" }, { 5, 1000, 0, FAR, "tp now+1000s" },
+	};
 	const int nspec = (int) (sizeof (grid) / sizeof (grid[0]));
+	static_assert (sizeof (grid) == sizeof (tpgrid), "both grids have the same number of specs");
 	unsigned long evaluations = 0, nontrivial = 0; bool ok = true; std::string fail; Case failc; memset (&failc, 0, sizeof failc);
 	std::vector<std::string> samples; std::set<std::string> distinct;
 	int idx = 0;
-	for (int lib = 0; lib < 2 && ok; lib++) for (int e = 0; e < 9 && ok; e++) for (int s = 0; s < nspec && ok; s++, idx++) {
-		if (idx % nshards != shard) continue;
-		Case c { lib, e, grid[s].mode, grid[s].sec, grid[s].nsec, grid[s].cls, grid[s].cls == FAR ? 30 : -1 };
+	for (int lib = 0; lib < 3 && ok; lib++) for (int e = 0; e < 9 && ok; e++) for (int s = 0; s < nspec && ok; s++, idx++) {
+		if ((idx + idx / nspec) % nshards != shard) continue;   // rotate per row: a column of hanging cases is spread over all shards
+		const Spec *g = (lib == 2) ? tpgrid : grid;
+		Case c { lib == 2 ? 1 : lib, e, g[s].mode, g[s].sec, g[s].nsec, g[s].cls, g[s].cls == FAR ? 30 : -1 };
 		evaluations++;
 		// non-trivial: a deadline the existing suite does not use (it uses 0, no_deadline and now+small)
-		if (!(s == 0 || s == 14 || grid[s].cls == NEAR)) { nontrivial++; distinct.insert (case_str (c)); }
+		if (lib == 2 || !(s == 0 || s == 14 || g[s].cls == NEAR)) { nontrivial++; distinct.insert (case_str (c)); }
 		if (samples.size () < 3 && (idx % 37) == 5) samples.push_back (case_str (c));
 		if (!judge (c)) { ok = false; fail = g_why; failc = c; }
 	}
@@ -156,6 +167,18 @@ int main (int argc, char **argv) {
 			case 3: c.mode = 2; c.sec = 0; c.nsec = 20000000 + c.nsec % 40000000; c.cls = NEAR; break; // now + 20..60 ms
 			case 4: c.mode = 0; c.sec = now + 1000 + mag % (LLONG_MAX - now - 2000); c.cls = FAR; break; // far future
 			default: c.mode = 2; c.sec = 100 + mag % 1000000; c.cls = FAR; break;
+			}
+			if (c.lib == 1 && *rc::gen::inRange (0, 2) == 1) {
+				// the same instant through the time_point overloads: modes 4,5,6 and an int64 count of ns
+				const long long lim = 9223372036LL;
+				switch (kind) {
+				case 0: c.mode = 4; c.sec = (mag % 3 == 0) ? -1 : -(mag % lim) - 1; break;   // a third of them inside the last second before the epoch
+				case 1: c.mode = 4; break;
+				case 2: c.mode = 6; break;
+				case 3: c.mode = 5; break;
+				case 4: c.mode = 4; c.sec = now + 1000 + mag % (lim - now - 2000); break;
+				default: c.mode = 5; break;
+				}
 			}
 			c.event_ms = (c.cls == FAR) ? 30 : -1;
 			evaluations++;
